@@ -5,7 +5,7 @@
 package latency
 
 // Every function under contract in this package also serves the properties that depend on the whole package.
-//@ package-props C15
+//@ package-props C15 C12
 
 // The running batch (start, totalDiff, count, min, max) is only touched under
 // Latency.mu. The windows (and their slots) are reached only through the tracker, by
